@@ -244,9 +244,77 @@ def run(V, universes, semantics=True):
     return cov
 
 
+def disjoint_cycles(V, tier):
+    """Several DISJOINT dependency cycles in one workspace, with fixture names chosen so that naive keys collide: names whose
+    concatenations are ambiguous ({a, bc} vs {ab, c}), names that are prefixes / suffixes of each other, names differing in case
+    or by an underscore.  'Every dependency cycle in the workspace is reported at least once': each cycle's member set must be
+    covered by a reported path, and every reported path must be a closed chain of that cycle."""
+    name_sets = [("a", "bc", "ab", "c"), ("app", "configdb", "appconfig", "db"), ("x", "x_", "_x", "x__"),
+                 ("db", "DB", "dB", "Db"), ("s", "ss", "sss", "ssss"), ("n1", "n11", "n1_1", "n_11"),
+                 ("a_b", "c", "a", "b_c"), ("ab", "cd", "abc", "d"), ("p", "q", "pq", "qp")]
+    shapes = [[(0, 1), (2, 3)], [(0, 2), (1, 3)], [(0, 3), (1, 2)], [(0, 1, 2), (3,)], [(0,), (1, 2, 3)]]
+    layouts = ["one_file", "two_files"]
+    cases, ctx = [], {}
+    for names in name_sets:
+        for shape in shapes:
+            if any(len(c) == 1 for c in shape):
+                continue            # a self-requesting fixture with no outer definition is not judged (DESIGN A.3)
+            for lay in layouts:
+                deps = {}
+                for cyc in shape:
+                    for k, i in enumerate(cyc):
+                        deps[names[i]] = names[cyc[(k + 1) % len(cyc)]]
+                files = {}
+                for j, nm in enumerate(names):
+                    path = "/vwsd/conftest.py" if lay == "one_file" or j % 2 == 0 else "/vwsd/sub/conftest.py"
+                    files.setdefault(path, "import pytest\n")
+                    files[path] += "\n\n@pytest.fixture\ndef %s(%s):\n    return 1\n" % (nm, deps[nm])
+                if lay == "two_files":
+                    # both conftests must see every name: the sub-directory conftest sits below the root one, and the cycles
+                    # whose members live in different files run root -> sub only if the root names are visible from sub (they
+                    # are) and sub names from root (they are not): keep cycles inside one file each
+                    ok = all(len({("root" if names.index(m) % 2 == 0 else "sub") for m in [names[i] for i in cyc]}) == 1 for cyc in shape)
+                    if not ok:
+                        continue
+                ops = [{"op": "analyze", "path": p, "text": t} for p, t in sorted(files.items())] + [{"op": "cycles"}]
+                ops += [{"op": "cycles_in_file", "path": p} for p in sorted(files)]
+                cid = len(cases)
+                ctx[cid] = (names, shape, lay, files)
+                cases.append({"id": cid, "ops": ops})
+    for res in C.run_harness(cases):
+        names, shape, lay, files = ctx[res["id"]]
+        V.count()
+        V.nontriv(("disjoint", names, str(shape), lay))
+        ans = res["res"][len(files)]
+        want = [frozenset(names[i] for i in cyc) for cyc in shape]
+        ex = {"fixture_names": names, "cycles": [sorted(w) for w in want], "layout": lay, "files": files, "reported": ans}
+        if not isinstance(ans, list):
+            V.violation(ex, "cycle detection panicked on disjoint cycles")
+            continue
+        got = [frozenset(c["path"][:-1]) for c in ans]
+        for w in want:
+            if not any(g == w for g in got):
+                V.violation(ex, "a dependency cycle %s is not reported" % sorted(w))
+                break
+        else:
+            if any(g not in want for g in got):
+                V.violation(ex, "a reported circular dependency is not one of the workspace's cycles")
+            else:
+                # per file: the cycles whose fixtures the file defines, and only those
+                for k, p in enumerate(sorted(files)):
+                    inf = res["res"][len(files) + 1 + k]
+                    gotf = {frozenset(c["path"][:-1]) for c in inf} if isinstance(inf, list) else None
+                    wantf = {w for w in want if any(("def %s(" % m) in files[p] for m in w)}
+                    if gotf is None or not gotf <= wantf or (wantf and not gotf):
+                        V.violation(dict(ex, file=p, reported_for_file=inf), "the circular-dependency report of a file is not about the cycles its fixtures lie on")
+                        break
+    return len(cases)
+
+
 def check_c16(tier):
     V = C.Verdict("C16", tier, "model_checking")
     cov = run(V, ["cycles", "scopes"])
+    V.notes["disjoint_cycle_cases"] = disjoint_cycles(V, tier)
     return V.finish(
         coverage_extra=cov,
         rule="cycles: fixtures a,b,c in one conftest with every parameter list over {a,b,c} (self loops, 2-/3-cycles, "
